@@ -1379,6 +1379,17 @@ def evaluate__available_env_vars(self: XPathFunction, context: ta.ContextType = 
 
 ###
 # Parsing and serializing
+def xml_from_string(etree: Any, text: Union[str, bytes]) -> Any:
+    """Parses XML text keeping comments and processing instructions (XDM nodes)."""
+    if hasattr(etree, 'TreeBuilder') and not hasattr(etree, 'LXML_VERSION'):
+        try:
+            builder = etree.TreeBuilder(insert_comments=True, insert_pis=True)
+        except TypeError:
+            return etree.XML(text)
+        return etree.XML(text, etree.XMLParser(target=builder))
+    return etree.XML(text)
+
+
 @method(function('parse-xml', nargs=1,
                  sequence_types=('xs:string?', 'document-node(element(*))?')))
 def evaluate__parse_xml(self: XPathFunction, context: ta.ContextType = None) \
@@ -1396,9 +1407,9 @@ def evaluate__parse_xml(self: XPathFunction, context: ta.ContextType = None) \
     etree = context.etree
     try:
         if self.parser.defuse_xml:
-            root = etree.XML(defuse_xml(arg.encode('utf-8')))
+            root = xml_from_string(etree, defuse_xml(arg.encode('utf-8')))
         else:
-            root = etree.XML(arg.encode('utf-8'))
+            root = xml_from_string(etree, arg.encode('utf-8'))
     except etree.ParseError:
         raise self.error('FODC0006')
     else:
@@ -1437,14 +1448,14 @@ def evaluate__parse_xml_fragment(self: XPathFunction, context: ta.ContextType = 
     etree = context.etree
     try:
         if self.parser.defuse_xml:
-            root = etree.XML(defuse_xml(arg))
+            root = xml_from_string(etree, defuse_xml(arg))
         else:
-            root = etree.XML(arg)
+            root = xml_from_string(etree, arg)
     except etree.ParseError as err:
         # A not parsable fragment: try to parse including XML data in a dummy element.
         try:
             dummy_element_node = get_node_tree(
-                root=etree.XML(f'<document>{arg}</document>'),
+                root=xml_from_string(etree, f'<document>{arg}</document>'),
                 namespaces=self.parser.namespaces
             )
         except etree.ParseError:
